@@ -747,14 +747,28 @@ func (l *Lowerer) lowerStruct(s *parser.StructDecl) error {
 	return nil
 }
 
+// parseAttrUint parses the integer literal of an attribute argument (@group, @binding,
+// @location, @id, @align, @size, @workgroup_size ...): decimal or hexadecimal, with an
+// optional `u` or `i` type suffix.
+func parseAttrUint(text string, bits int) (uint64, error) {
+	if strings.HasSuffix(text, "u") {
+		text = strings.TrimSuffix(text, "u")
+	} else if strings.HasSuffix(text, "i") {
+		text = strings.TrimSuffix(text, "i")
+	}
+	if strings.HasPrefix(text, "0x") || strings.HasPrefix(text, "0X") {
+		return strconv.ParseUint(text[2:], 16, bits)
+	}
+	return strconv.ParseUint(text, 10, bits)
+}
+
 // getAlignAttribute extracts the value from an @align(N) attribute, returns 0 if not found.
 func getAlignAttribute(attrs []parser.Attribute) uint32 {
 	for _, attr := range attrs {
 		if attr.Name == "align" && len(attr.Args) == 1 {
 			if lit, ok := attr.Args[0].(*parser.Literal); ok {
-				var val uint32
-				if _, err := fmt.Sscanf(lit.Value, "%d", &val); err == nil {
-					return val
+				if val, err := parseAttrUint(lit.Value, 32); err == nil {
+					return uint32(val)
 				}
 			}
 		}
@@ -767,9 +781,8 @@ func getSizeAttribute(attrs []parser.Attribute) uint32 {
 	for _, attr := range attrs {
 		if attr.Name == "size" && len(attr.Args) == 1 {
 			if lit, ok := attr.Args[0].(*parser.Literal); ok {
-				var val uint32
-				if _, err := fmt.Sscanf(lit.Value, "%d", &val); err == nil {
-					return val
+				if val, err := parseAttrUint(lit.Value, 32); err == nil {
+					return uint32(val)
 				}
 			}
 		}
@@ -901,7 +914,7 @@ func (l *Lowerer) lowerGlobalVar(v *parser.VarDecl) error {
 	for _, attr := range v.Attributes {
 		if attr.Name == "group" && len(attr.Args) > 0 {
 			if lit, ok := attr.Args[0].(*parser.Literal); ok {
-				group, _ := strconv.ParseUint(lit.Value, 10, 32)
+				group, _ := parseAttrUint(lit.Value, 32)
 				if binding == nil {
 					binding = &ir.ResourceBinding{}
 				}
@@ -911,7 +924,7 @@ func (l *Lowerer) lowerGlobalVar(v *parser.VarDecl) error {
 		}
 		if attr.Name == "binding" && len(attr.Args) > 0 {
 			if lit, ok := attr.Args[0].(*parser.Literal); ok {
-				bind, _ := strconv.ParseUint(lit.Value, 10, 32)
+				bind, _ := parseAttrUint(lit.Value, 32)
 				if binding == nil {
 					binding = &ir.ResourceBinding{}
 				}
@@ -1121,7 +1134,7 @@ func (l *Lowerer) lowerOverride(o *parser.OverrideDecl) error {
 	for _, attr := range o.Attributes {
 		if attr.Name == "id" && len(attr.Args) > 0 {
 			if lit, ok := attr.Args[0].(*parser.Literal); ok {
-				if idVal, parseErr := strconv.ParseUint(lit.Value, 10, 16); parseErr == nil {
+				if idVal, parseErr := parseAttrUint(lit.Value, 16); parseErr == nil {
 					id16 := uint16(idVal)
 					id = &id16
 				}
@@ -13018,7 +13031,7 @@ func (l *Lowerer) collectBinding(attrs []parser.Attribute) *ir.Binding {
 		case "location":
 			if len(attr.Args) > 0 {
 				if lit, ok := attr.Args[0].(*parser.Literal); ok {
-					loc, _ := strconv.ParseUint(lit.Value, 10, 32)
+					loc, _ := parseAttrUint(lit.Value, 32)
 					if locBinding == nil {
 						locBinding = &ir.LocationBinding{}
 					}
@@ -13028,7 +13041,7 @@ func (l *Lowerer) collectBinding(attrs []parser.Attribute) *ir.Binding {
 		case "blend_src":
 			if len(attr.Args) > 0 {
 				if lit, ok := attr.Args[0].(*parser.Literal); ok {
-					idx, _ := strconv.ParseUint(lit.Value, 10, 32)
+					idx, _ := parseAttrUint(lit.Value, 32)
 					if locBinding == nil {
 						locBinding = &ir.LocationBinding{}
 					}
@@ -13259,7 +13272,7 @@ func (l *Lowerer) extractWorkgroupSize(attrs []parser.Attribute) [3]uint32 {
 func (l *Lowerer) evalConstU32Expr(expr parser.Expr) (uint32, bool) {
 	switch e := expr.(type) {
 	case *parser.Literal:
-		if val, err := strconv.ParseUint(e.Value, 10, 32); err == nil {
+		if val, err := parseAttrUint(e.Value, 32); err == nil {
 			return uint32(val), true
 		}
 		// Try parsing as signed
